@@ -30,8 +30,8 @@ def gen_variant(rng, frame, force=None):
 class C02(core.Check):
     pid = 'C02'
     driver = 'drv_c01'
-    quick_cases = 70
-    thorough_cases = 1500
+    quick_cases = 400
+    thorough_cases = 5000
     rule = ("C01's abstract frames, each materialized once under the default RangeIndex / given column order and then "
             'under 3 variants drawn from: relabelled index (offset, negative, permuted, string, float, duplicate labels '
             'by assignment / set_index, all-equal labels, pd.concat of RangeIndex pieces, iloc out of a larger frame), '
@@ -41,6 +41,18 @@ class C02(core.Check):
             'canonicaliser, col_names_dict, the complete col_stats, task_type, num_classes. Non-trivial = base and all '
             'variants materialized; distinct = hash of (frame, variants).')
     partial_notes = (
+        'theorems are stated inside the typed domain ConvFrameOK (distinct column names, no text_tokenized column, >= 1 '
+        'row and >= 1 feature column, one cell per row, uniform embedding widths); relabel_invariant needs no such '
+        'hypothesis',
+        'colperm_invariant permutes the DataFrame columns and col_to_stype TOGETHER (the model\'s Dataset reads '
+        'col_to_stype in column order) and states dict equality (Python ==) of col_names_dict / feat_dict / col_stats; '
+        'independent orders are proved at converter level (colperm_invariant_converter) and exercised by the '
+        'correspondence (dfperm and dictperm are drawn independently)',
+        'TensorFrame.__eq__ itself is not modelled here (C08): tf == tf_variant through the library is checked on the '
+        'real objects only',
+        'num_classes_matches_target assumes the fitted category list is an admissible value_counts index of the target '
+        '(validCats: duplicate-free, exactly the observed values); that is checked against the real list on every '
+        'run (catsValid); the generated task_type table covers class counts 0..6, task_type_table all counts',
         'pandas index machinery (set_index / concat / iloc producing the labels) is outside the model: the model '
         'receives the resulting label list',
         'statistics other than category list, EMB_DIM and YEAR_RANGE (mean, quantiles, time statistics) are compared '
